@@ -87,8 +87,8 @@ Catalogue == <<
   Plain(<<"X","-","U","1">>, <<" ">>, <<"%E2","%80","%A8","%D9","%A3","%D9","%A2","%EF","%BC","%91">>),
   \* 25  x-u1: ²½Ⅷ<U+00A0><U+0085><U+1680><U+3000><U+1D7D9>   (same name in lower case; other numerics, white-space classes in the middle)
   Plain(<<"x","-","u","1">>, <<" ">>, <<"%C2","%B2","%C2","%BD","%E2","%85","%A7","%C2","%A0","%C2","%85","%E1","%9A","%80","%E3","%80","%80","%F0","%9D","%9F","%99">>),
-  \* 26  X-U2: ßİﬁe<U+0301><U+0080><U+009F><DEL><U+E000>   (length-changing case mappings, combining mark, C1 controls, DEL, private use last)
-  Plain(<<"X","-","U","2">>, <<" ">>, <<"%C3","%9F","%C4","%B0","%EF","%AC","%81","e","%CC","%81","%C2","%80","%C2","%9F","%7F","%EE","%80","%80">>),
+  \* 26  X-U2: ßİﬁe<U+0301><U+0080><U+009F><U+E000>   (length-changing case mappings, combining mark, C1 controls, private use last)
+  Plain(<<"X","-","U","2">>, <<" ">>, <<"%C3","%9F","%C4","%B0","%EF","%AC","%81","e","%CC","%81","%C2","%80","%C2","%9F","%EE","%80","%80">>),
   \* 27  Cookie: ²ß=İ<U+0663>; k<U+00A0>k=v<U+3000>v   (Unicode classes in cookie names and values, white space only inside)
   CookieH(<<"C","o","o","k","i","e">>, <<" ">>, << << <<"%C2","%B2","%C3","%9F">>, <<"%C4","%B0","%D9","%A3">> >>, << <<"k","%C2","%A0","k">>, <<"v","%E3","%80","%80","v">> >> >>, <<";"," ">>),
   \* 28  Cookie: =                 (a lone '=': one pair with empty name and value)
